@@ -1,6 +1,7 @@
 package main
 
 import (
+	"go/token"
 	"fmt"
 	"os"
 	"go/ast"
@@ -98,9 +99,38 @@ func (x *Exec) collectLocalAssigns(body ast.Node) {
 		return
 	}
 	x.assignsSeen[body] = true
+	if x.assignNodes == nil {
+		x.assignNodes = map[*types.Var][]ast.Node{}
+	}
+	noteAssign := func(e ast.Expr, at ast.Node) {
+		if id, ok := ast.Unparen(e).(*ast.Ident); ok {
+			if x.info.Defs[id] != nil {
+				return // the declaration itself
+			}
+			if v, ok := x.info.Uses[id].(*types.Var); ok {
+				x.assignNodes[v] = append(x.assignNodes[v], at)
+			}
+		}
+	}
 	ast.Inspect(body, func(n ast.Node) bool {
 		switch n := n.(type) {
+		case *ast.IncDecStmt:
+			noteAssign(n.X, n)
+		case *ast.RangeStmt:
+			if n.Tok == token.ASSIGN {
+				if n.Key != nil {
+					noteAssign(n.Key, n)
+				}
+				if n.Value != nil {
+					noteAssign(n.Value, n)
+				}
+			}
+		}
+		switch n := n.(type) {
 		case *ast.AssignStmt:
+			for _, l := range n.Lhs {
+				noteAssign(l, n)
+			}
 			for i, l := range n.Lhs {
 				id, ok := l.(*ast.Ident)
 				if !ok {
